@@ -311,10 +311,10 @@ def F(ns, imports, rules):
 
 def corpus_cases():
     cs = []
-    # the documented example: qualified rule reference overrides the search order (fixed ef17d5e)
+    # the documented example: qualified rule reference overrides the search order (fixed 3299436)
     cs.append(build_case([F("a", ["component.types"], [("MyRule", [("r", "component.types.List"), ("r", "List"), ("c", "component.types.List")]), ("List", [])]),
                           F("component.types", [], [("List", [])])], False))
-    # the same file imported under odd spellings is one namespace (fixed d72b434)
+    # the same file imported under odd spellings is one namespace (fixed 87d10e6)
     cs.append(build_case([F("a", ["p.b", "p..b", ".p.b", "p.c"], [("Main", [("r", "X"), ("c", "a.Main"), ("r", "INT")])]),
                           F("p.b", ["c"], [("X", [("r", "Y"), ("r", "INT")])]),
                           F("p.c", [], [("Y", []), ("INT", [])])], False))
